@@ -304,4 +304,317 @@ theorem at_sim {s : St} {c : Cycles.C} {ρ : Nat → Nat} (hs : Sim s c ρ) (r :
       · have : k + 1 ≥ l.length + 1 := by omega
         simp [hk, this]
 
+/-! ## Part D: surgery (`Pop`, `Join`) -/
+
+/-- generic re-linking step: the cells `A` (a union of cycles of `h`) are re-linked into the cycles
+`news` of `h'`, every other cell keeps its `next`; the reference drops the cycles meeting `A`
+(`keep`) and appends the renamed `news` -/
+theorem sim_surgery {s : St} {c : Cycles.C} {ρ : Nat → Nat} (hs : Sim s c ρ) (h' : Heap)
+    (hsz : h'.size = s.h.size) (A : List Nat)
+    (hnx : ∀ k, k ∉ A → h'.nx k = s.h.nx k)
+    (hA : ∀ m, Cyc s.h m → (∃ x ∈ m, x ∈ A) → ∀ y ∈ m, y ∈ A)
+    (news : List (List Nat)) (hnews : ∀ m ∈ news, Cyc h' m) (hcovA : ∀ x ∈ A, ∃ m ∈ news, x ∈ m)
+    (keep : List Nat → Bool) (hkeep : ∀ m, Cyc s.h m → (keep (m.map ρ) = true ↔ ∀ x ∈ m, x ∉ A)) :
+    (∀ cy ∈ c.cycles.filter keep ++ news.map (List.map ρ), ∃ m, Cyc h' m ∧ cy = m.map ρ) ∧
+    (∀ q, q < s.h.size → ∃ cy ∈ c.cycles.filter keep ++ news.map (List.map ρ), ρ q ∈ cy) := by
+  constructor
+  · intro cy hcy
+    rcases List.mem_append.mp hcy with hcy | hcy
+    · obtain ⟨hin, hk⟩ := List.mem_filter.mp hcy
+      obtain ⟨m, cm, rfl⟩ := hs.cyc cy hin
+      have hd := (hkeep m cm).mp hk
+      exact ⟨m, cyc_frame s.h h' m cm (by omega) (fun k hk' => hnx k (hd k hk')), rfl⟩
+    · obtain ⟨m, hm, rfl⟩ := List.mem_map.mp hcy
+      exact ⟨m, hnews m hm, rfl⟩
+  · intro q hq
+    by_cases hqa : q ∈ A
+    · obtain ⟨m, hm, hqm⟩ := hcovA q hqa
+      exact ⟨m.map ρ, List.mem_append.mpr (Or.inr (List.mem_map.mpr ⟨m, hm, rfl⟩)), List.mem_map.mpr ⟨q, hqm, rfl⟩⟩
+    · obtain ⟨cy, hcy, hqc⟩ := hs.cover q hq
+      obtain ⟨m, cm, rfl⟩ := hs.cyc cy hcy
+      have hqm : q ∈ m := (mem_map_rho hs.rinj cm.bound hq).mp hqc
+      refine ⟨m.map ρ, List.mem_append.mpr (Or.inl (List.mem_filter.mpr ⟨hcy, ?_⟩)), hqc⟩
+      rw [hkeep m cm]
+      intro x hx hxa
+      exact hqa (hA m cm ⟨x, hx, hxa⟩ q hqm)
+
+/-- the reference's filter "cycle does not contain the id of `q`" keeps exactly the cycles disjoint from `q`'s cycle -/
+theorem keep_not_contains {s : St} {c : Cycles.C} {ρ : Nat → Nat} (hs : Sim s c ρ) (q : Nat) (l : List Nat)
+    (hc : Cyc s.h (q :: l)) (m : List Nat) (cm : Cyc s.h m) :
+    ((!(m.map ρ).contains (ρ q)) = true ↔ ∀ x ∈ m, x ∉ q :: l) := by
+  have hq : q < s.h.size := hc.bound q (by simp)
+  have hiff := mem_map_rho hs.rinj cm.bound hq (m := m)
+  simp only [Bool.not_eq_true', List.contains_eq_mem, decide_eq_false_iff_not, hiff]
+  constructor
+  · intro hqm x hx hxa
+    exact hqm (cyc_mem_of_common s.h m (q :: l) cm hc x hx hxa q (by simp))
+  · intro hd hqm
+    exact hd q hqm (by simp)
+
+theorem cyc_closed {h : Heap} {q : Nat} {l : List Nat} (hc : Cyc h (q :: l)) (m : List Nat) (cm : Cyc h m)
+    (hx : ∃ x ∈ m, x ∈ q :: l) : ∀ y ∈ m, y ∈ q :: l := by
+  obtain ⟨x, xm, xa⟩ := hx
+  exact cyc_mem_of_common h (q :: l) m hc cm x xa xm
+
+/-- `Pop` step -/
+theorem sim_pop {s : St} {c : Cycles.C} {ρ : Nat → Nat} (hs : Sim s c ρ) (d r : Nat) :
+    Sim (step s (.pop d r)).1 (Cycles.step c (.pop d r)).1 ρ ∧
+      (step s (.pop d r)).2 = (Cycles.step c (.pop d r)).2 := by
+  have hreg := hs.regs r
+  cases hr : s.reg r with
+  | none =>
+    rw [hr] at hreg
+    simp only [step, Cycles.step, hr, hreg, Option.map_none, pop]
+    exact ⟨sim_setReg hs d none (by simp), trivial⟩
+  | some q =>
+    rw [hr] at hreg
+    have hq := hs.rinv.regs r q hr
+    obtain ⟨l, hc, hsing, hmany, i', sz, v⟩ := pop_any s.h hs.rinv.inv q hq
+    have hcy := cycleOf_eq hs q l hc
+    simp only [step, Cycles.step, hr, hreg, Option.map_some, hcy, List.map_cons, List.drop_one, List.tail_cons]
+    by_cases hl : l = []
+    · subst hl
+      simp only [List.map_nil, List.isEmpty_nil, if_true, hsing rfl]
+      exact ⟨sim_setReg hs d (some q) (by intro x hx; cases hx; exact hq), trivial⟩
+    · have hne : (l.map ρ).isEmpty = false := by cases l <;> simp_all
+      simp only [hne, Bool.false_eq_true, if_false]
+      refine ⟨?_, trivial⟩
+      obtain ⟨c1, c2⟩ := hmany hl
+      have hpvq : s.h.pv q ∈ q :: l := by
+        rw [cyc_pv hs.rinv.inv hc]; exact List.getLastD_mem_cons
+      have hpne : s.h.pv q ≠ q := by
+        rw [cyc_pv hs.rinv.inv hc]
+        have hn := hc.nodup; rw [List.nodup_cons] at hn
+        intro e
+        have : l.getLastD q ∈ l := by
+          obtain ⟨cs, c0, rfl⟩ := exists_snoc l hl
+          simp
+        exact hn.1 (e ▸ this)
+      obtain ⟨g1, g2⟩ := sim_surgery hs (pop s.h (some q)) sz (q :: l)
+        (fun k hk => by
+          rw [pop_nx s.h hs.rinv.inv q hq hpne k]
+          have h1 : k ≠ s.h.pv q := fun e => hk (e ▸ hpvq)
+          have h2 : k ≠ q := fun e => hk (by simp [e])
+          simp [h1, h2])
+        (fun m cm hx => cyc_closed hc m cm hx)
+        [l, [q]]
+        (by intro m hm; simp only [List.mem_cons, List.not_mem_nil, or_false] at hm
+            rcases hm with rfl | rfl
+            · exact c2
+            · exact c1)
+        (by intro x hx
+            rcases List.mem_cons.mp hx with rfl | hx
+            · exact ⟨[x], by simp, by simp⟩
+            · exact ⟨l, by simp, hx⟩)
+        (fun cy => !cy.contains (ρ q)) (fun m cm => keep_not_contains hs q l hc m cm)
+      exact sim_same_cells hs (pop s.h (some q)) _ d (some q) i' sz v
+        (by intro x hx; cases hx; exact hq) g1 g2
+
+theorem cyc_pv_mem {h : Heap} (hi : Inv h) {c : List Nat} (hc : Cyc h c) {x : Nat} (hx : x ∈ c) : h.pv x ∈ c := by
+  obtain ⟨a, b, e, c'⟩ := cyc_from_mem h c hc x hx
+  have := cyc_pv hi c'
+  have hm : (b ++ a).getLastD x ∈ x :: (b ++ a) := List.getLastD_mem_cons
+  rw [← this] at hm
+  rw [e]
+  simp only [List.mem_cons, List.mem_append] at hm ⊢
+  rcases hm with h1 | h1 | h1
+  · exact Or.inr (Or.inl h1)
+  · exact Or.inr (Or.inr h1)
+  · exact Or.inl h1
+
+theorem ok_inj {α : Type} {a b : α} (h : (Res.ok a : Res α) = .ok b) : a = b := by cases h; rfl
+
+/-- `Join` step -/
+theorem sim_join {s : St} {c : Cycles.C} {ρ : Nat → Nat} (hs : Sim s c ρ) (d r t : Nat) :
+    Sim (step s (.join d r t)).1 (Cycles.step c (.join d r t)).1 ρ ∧
+      (step s (.join d r t)).2 = (Cycles.step c (.join d r t)).2 := by
+  have hregr := hs.regs r
+  have hregt := hs.regs t
+  cases hr : s.reg r with
+  | none =>
+    rw [hr] at hregr
+    cases ht : s.reg t with
+    | none =>
+      rw [ht] at hregt
+      simp only [step, Cycles.step, hr, ht, hregr, hregt, Option.map_none, join]
+      exact ⟨sim_setReg hs d none (by simp), trivial⟩
+    | some b =>
+      rw [ht] at hregt
+      simp only [step, Cycles.step, hr, ht, hregr, hregt, Option.map_none, Option.map_some, join]
+      exact ⟨hs, trivial⟩
+  | some a =>
+    rw [hr] at hregr
+    cases ht : s.reg t with
+    | none =>
+      rw [ht] at hregt
+      simp only [step, Cycles.step, hr, ht, hregr, hregt, Option.map_none, Option.map_some, join]
+      exact ⟨hs, trivial⟩
+    | some b =>
+      rw [ht] at hregt
+      have ha := hs.rinv.regs r a hr
+      have hb := hs.rinv.regs t b ht
+      have hi := hs.rinv.inv
+      obtain ⟨l, hc, hnear, hsame, hdiff, htri⟩ := join_any s.h hi a b ha hb
+      have hcy := cycleOf_eq hs a l hc
+      have hnd := hc.nodup
+      rw [List.nodup_cons] at hnd
+      have hcont : ((a :: l).map ρ).contains (ρ b) = decide (b ∈ a :: l) := by
+        have := mem_map_rho hs.rinj hc.bound hb (m := a :: l)
+        by_cases hm : b ∈ a :: l
+        · simp only [hm, decide_true]; simpa using this.mpr hm
+        · simp only [hm, decide_false]
+          have : ρ b ∉ (a :: l).map ρ := fun h => hm (this.mp h)
+          simpa using this
+      simp only [step, Cycles.step, hr, ht, hregr, hregt, Option.map_some, hcy, hcont]
+      rcases htri with hba | hbl | hnot
+      · -- s = r
+        subst hba
+        have hj := hnear (Or.inl rfl)
+        simp only [hj, List.mem_cons, true_or, decide_true, if_true, List.map_cons, List.idxOf_cons_self,
+          Nat.zero_le]
+        exact ⟨sim_setReg hs d none (by simp), trivial⟩
+      · -- s on the ring of r
+        have hba : b ≠ a := fun e => hnd.1 (e ▸ hbl)
+        have hmem : b ∈ a :: l := by simp [hbl]
+        obtain ⟨m, rest, e⟩ := List.append_of_mem hbl
+        have hbm : b ∉ m := by
+          intro hm; rw [e] at hnd
+          have := hnd.2; rw [List.nodup_append] at this
+          exact this.2.2 b hm b (by simp) rfl
+        have hrb : ρ b ∉ (a :: m).map ρ := by
+          intro hx
+          have := (mem_map_rho hs.rinj (fun i hi' => hc.bound i (by
+            rw [e]; simp only [List.mem_cons, List.mem_append] at hi' ⊢
+            rcases hi' with h1 | h1
+            · exact Or.inl h1
+            · exact Or.inr (Or.inl h1))) hb).mp hx
+          rcases List.mem_cons.mp this with h1 | h1
+          · exact hba h1
+          · exact hbm h1
+        have hidx : ((a :: l).map ρ).idxOf (ρ b) = m.length + 1 := by
+          rw [e]
+          have : (a :: (m ++ b :: rest)).map ρ = (a :: m).map ρ ++ (ρ b :: rest.map ρ) := by simp
+          rw [this, List.idxOf_append, if_neg hrb]; simp
+        simp only [hmem, decide_true, if_true, hidx]
+        by_cases hm : m = []
+        · subst hm
+          have hj := hnear (Or.inr (by rw [e]; rfl))
+          simp only [hj, List.length_nil, Nat.zero_add, Nat.le_refl, if_true]
+          exact ⟨sim_setReg hs d none (by simp), trivial⟩
+        · have hlen : ¬ (m.length + 1 ≤ 1) := by
+            have : m.length ≠ 0 := fun h0 => hm (List.eq_nil_of_length_eq_zero h0)
+            omega
+          obtain ⟨h', hj, c1, c2, i', sz, v⟩ := hsame m rest e hm
+          simp only [hj, hlen, if_false]
+          refine ⟨?_, trivial⟩
+          -- frame from `join_nx`
+          have hnab : s.h.nx a ≠ b := by
+            rw [cyc_nx_head hc, e]; cases m with
+            | nil => exact absurd rfl hm
+            | cons x m' =>
+              simp only [List.cons_append, List.headD_cons]
+              intro ex; exact hbm (by simp [ex])
+          obtain ⟨h'', hj', _, _, _, hnx⟩ := join_nx s.h hi a b ha hb (fun e' => hba e'.symm) hnab
+          have hh : h' = h'' := by
+            have := ok_inj (hj.symm.trans hj'); exact (Prod.mk.inj this).1
+          subst hh
+          have hpvb : s.h.pv b ∈ a :: l := cyc_pv_mem hi hc hmem
+          have htake : ((a :: l).map ρ).take (m.length + 1) = (a :: m).map ρ := by
+            rw [e]
+            have : (a :: (m ++ b :: rest)).map ρ = (a :: m).map ρ ++ (ρ b :: rest.map ρ) := by simp
+            rw [this, List.take_left' (by simp)]
+          have hdrop : ((a :: l).map ρ).drop (m.length + 1) = (b :: rest).map ρ := by
+            rw [e]
+            have : (a :: (m ++ b :: rest)).map ρ = (a :: m).map ρ ++ (ρ b :: rest.map ρ) := by simp
+            rw [this, List.drop_left' (by simp)]; simp
+          obtain ⟨g1, g2⟩ := sim_surgery hs h' sz (a :: l)
+            (fun k hk => by
+              rw [hnx k]
+              have h1 : k ≠ a := fun e' => hk (by simp [e'])
+              have h2 : k ≠ s.h.pv b := fun e' => hk (e' ▸ hpvb)
+              simp [h1, h2])
+            (fun m' cm hx => cyc_closed hc m' cm hx)
+            [a :: b :: rest, m]
+            (by intro m' hm'; simp only [List.mem_cons, List.not_mem_nil, or_false] at hm'
+                rcases hm' with rfl | rfl
+                · exact c1
+                · exact c2)
+            (by intro x hx
+                rw [e] at hx
+                simp only [List.mem_cons, List.mem_append] at hx
+                rcases hx with h1 | h1 | h1 | h1
+                · exact ⟨a :: b :: rest, by simp, by simp [h1]⟩
+                · exact ⟨m, by simp, h1⟩
+                · exact ⟨a :: b :: rest, by simp, by simp [h1]⟩
+                · exact ⟨a :: b :: rest, by simp, by simp [h1]⟩)
+            (fun cy => !cy.contains (ρ a)) (fun m' cm => keep_not_contains hs a l hc m' cm)
+          have hhead : ((((a :: l).map ρ).take (m.length + 1)).drop 1).head? = (m.head?).map ρ := by
+            rw [htake]; cases m <;> simp
+          rw [hhead, htake, hdrop]
+          have := sim_same_cells hs h' _ d m.head? i' sz v
+            (by intro x hx
+                have : x ∈ m := List.mem_of_mem_head? hx
+                exact c2.bound x this |> fun h0 => by rw [sz] at h0; exact h0) g1 g2
+          simpa [Cycles.C.without] using this
+      · -- different rings
+        have hnm : ¬ (b ∈ a :: l) := hnot
+        obtain ⟨l', h', c2, hj, c3, i', sz, v⟩ := hdiff hnot
+        have hcy2 := cycleOf_eq hs b l' c2
+        simp only [hnm, decide_false, Bool.false_eq_true, if_false, hj, hcy2]
+        refine ⟨?_, trivial⟩
+        have hba : a ≠ b := fun e' => hnot (by simp [e'])
+        have hnab : s.h.nx a ≠ b := by
+          rw [cyc_nx_head hc]; intro ex
+          apply hnot
+          cases l with
+          | nil => simp at ex; exact absurd ex hba
+          | cons x l0 => simp at ex; simp [ex]
+        obtain ⟨h'', hj', _, _, _, hnx⟩ := join_nx s.h hi a b ha hb hba hnab
+        have hh : h' = h'' := by
+          have := ok_inj (hj.symm.trans hj'); exact (Prod.mk.inj this).1
+        subst hh
+        have hpvb : s.h.pv b ∈ b :: l' := cyc_pv_mem hi c2 (by simp)
+        obtain ⟨g1, g2⟩ := sim_surgery hs h' sz ((a :: l) ++ (b :: l'))
+          (fun k hk => by
+            rw [hnx k]
+            have h1 : k ≠ a := fun e' => hk (by simp [e'])
+            have h2 : k ≠ s.h.pv b := fun e' => hk (by
+              rw [e']; exact List.mem_append.mpr (Or.inr hpvb))
+            simp [h1, h2])
+          (fun m' cm hx y hy => by
+            obtain ⟨x, xm, xa⟩ := hx
+            rcases List.mem_append.mp xa with h1 | h1
+            · exact List.mem_append.mpr (Or.inl (cyc_closed hc m' cm ⟨x, xm, h1⟩ y hy))
+            · exact List.mem_append.mpr (Or.inr (cyc_closed c2 m' cm ⟨x, xm, h1⟩ y hy)))
+          [a :: ((b :: l') ++ l)]
+          (by intro m' hm'; simp only [List.mem_cons, List.not_mem_nil, or_false] at hm'; subst hm'; exact c3)
+          (by intro x hx
+              refine ⟨a :: ((b :: l') ++ l), by simp, ?_⟩
+              simp only [List.mem_cons, List.mem_append] at hx ⊢
+              rcases hx with (h1 | h1) | (h1 | h1)
+              · exact Or.inl h1
+              · exact Or.inr (Or.inr h1)
+              · exact Or.inr (Or.inl (Or.inl h1))
+              · exact Or.inr (Or.inl (Or.inr h1)))
+          (fun cy => !cy.contains (ρ b) && !cy.contains (ρ a))
+          (fun m' cm => by
+            have k1 := keep_not_contains hs a l hc m' cm
+            have k2 := keep_not_contains hs b l' c2 m' cm
+            rw [Bool.and_eq_true, k1, k2]
+            constructor
+            · intro ⟨h2, h1⟩ x hx hxa
+              rcases List.mem_append.mp hxa with h3 | h3
+              · exact h1 x hx h3
+              · exact h2 x hx h3
+            · intro hall
+              exact ⟨fun x hx hxa => hall x hx (List.mem_append.mpr (Or.inr hxa)),
+                fun x hx hxa => hall x hx (List.mem_append.mpr (Or.inl hxa))⟩)
+        have hhd : (((a :: l).map ρ).drop 1).headD (ρ a) = ρ (l.headD a) := by cases l <;> simp
+        rw [hhd]
+        have := sim_same_cells hs h' _ d (some (l.headD a)) i' sz v
+          (by intro x hx; cases hx
+              have : l.headD a ∈ a :: l := by cases l <;> simp
+              exact hc.bound _ this) g1 g2
+        simpa [Cycles.C.without, List.filter_filter] using this
+
 end MdsVerif.Proofs.Ring
